@@ -53,6 +53,10 @@ func knownClassesOf(trees []influxql.Expr) []string {
 					set[clsBitwise] = true
 				}
 				for i, ch := range []influxql.Expr{x.LHS, x.RHS} {
+					if re, ok := ch.(*influxql.RegexLiteral); ok && re != nil && re.Val != nil && strings.Contains(re.Val.String(), "/") &&
+						!((x.Op == influxql.EQREGEX || x.Op == influxql.NEQREGEX) && i == 1) {
+						set[clsRegexOperand] = true
+					}
 					cb, ok := ch.(*influxql.BinaryExpr)
 					if !ok {
 						continue
